@@ -24,10 +24,13 @@ def check(pc, goal, timeout_ms, dump=None, second=False):
     '''validity of  /\\ pc -> goal'''
     t0 = time.time()
     s = z3.Solver()
-    s.set('timeout', timeout_ms)
     fs = list(pc) + [z3.Not(goal)]
     fs += th.rsqrt_axioms(fs)
     s.add(fs)
+    # string VCs: z3's sequence solver is unstable on them (same query: seconds or minutes), cvc5 decides them quickly --
+    # give z3 a short budget and hand the unknowns to cvc5 at once
+    stringy = 'String' in s.sexpr()[:200000] or '(str.' in s.sexpr()[:200000]
+    s.set('timeout', min(timeout_ms, 4000) if stringy else timeout_ms)
     if dump:
         try:
             with open(dump, 'w') as f:
@@ -49,7 +52,7 @@ def check(pc, goal, timeout_ms, dump=None, second=False):
         out['model'] = _small_model(s, fs) or s.model()
         return out
     # unknown: quantifier instantiation is order-sensitive -- retry with other seeds (an unsat answer is sound whatever the seed)
-    for seed in (7, 23):
+    for seed in (() if stringy else (7, 23)):
         s2 = z3.Solver()
         s2.set('timeout', timeout_ms)
         s2.set('random_seed', seed)
